@@ -29,6 +29,17 @@ def cases(ctx, rng):
             L.append("snap")
             L += H.history(rng, w, readers, keys, 30 if ctx.quick() else 60, 1, fire_bias=0, allow_stack_ops=(kind == "stacked"))
             out.append(({"kind": kind, "atime": atime, "gran": gran, "w": w}, L))
+    # writes on which maintenance fires and reprieves a read entry (re-stamped "now"): the entry
+    # the write itself inserts is still the newest of its directory
+    for atime, gran in ENVS[:1]:
+        for w, pre in ((("plain", 2), "p"), (("sharded", 2, 4), "s")):
+            L = G.header(w, (), "none") + ["snap"]
+            for i, opl in enumerate(("set a A 1", "set b B 1", "get a", "set c C 1", "put d D 1", "get c", "set e E 1")):
+                L.append(G.FIRE)
+                f = opl.split()
+                L.append(G.op(0, f[0], (f[1], 7, 9), *f[2:]))
+                L.append("snap")
+            out.append(({"kind": "plain" if pre == "p" else "sharded", "atime": atime, "gran": gran, "w": w, "fire": True}, L))
     # behavioural cases: what the NEXT MAINTENANCE does with an entry that was just read
     for atime, gran in ENVS:
         for readop in ("get", "touch", "put"):
